@@ -62,6 +62,12 @@ def cases(ctx):
             a_, b_ = rkey(r), rkey(r)
             for aa, bb in ((a_, b_), (a_, ec.N - b_), (ec.N - a_, b_), (a_, b_)):
                 yield {"k": "ecdh", "a": "%064x" % aa, "b": "%064x" % bb, "ca": True, "cb": True}
+    # key pairs whose shared x coordinate starts with two zero bytes (found by walking d*P with the reference)
+    for pi_, (ra, rb) in enumerate([("a1cc719db7052664941707dc8770f0b6d75df7ee5c1faa9f52135cb13ccc38b8", "302f0ae02661ddfe99635f3e1fc4be40d2edd018cbf9952fe408726b64557121"), ("a1cc719db7052664941707dc8770f0b6d75df7ee5c1faa9f52135cb13ccc38b8", "302f0ae02661ddfe99635f3e1fc4be40d2edd018cbf9952fe408726b6456f184"), ("50060e38340466fac2041ff7e990b3eace0bd65b6406d27dd0c95e2c411bff13", "43562f72bf9b44383f98f1bb8c9e51d5ce8567493b22e7dedc4bcc230697b683"), ("50060e38340466fac2041ff7e990b3eace0bd65b6406d27dd0c95e2c411bff13", "43562f72bf9b44383f98f1bb8c9e51d5ce8567493b22e7dedc4bcc230697c315")]):
+        if pi_ % ctx.nshards == ctx.shard % 4:
+            for ca_ in (True, False):
+                yield {"k": "ecdh", "a": ra, "b": rb, "ca": ca_, "cb": True}
+                yield {"k": "ecdh", "a": rb, "b": ra, "ca": True, "cb": ca_}
     # (key, message) pairs whose RFC 6979 nonce has two leading zero bytes / lies within 2^240 of the group order - found by searching
     # with the reference (about one input in 65536 each): a signer that treats such nonces specially is no longer RFC 6979
     if ctx.shard % 4 == 2 or ctx.tier == "thorough":
